@@ -62,6 +62,11 @@ class Ctx:
         for d, _, files in os.walk(root):
             for f in files:
                 if f.endswith(".go"):
+                    # in-package harness files are named zz_verif_<id>_*.go (or zz_verif_shared_*.go);
+                    # only those of the property being checked are overlaid, so that a harness of one
+                    # property can never break the build of another
+                    if f.startswith("zz_verif_") and not (f.startswith("zz_verif_shared") or f.startswith("zz_verif_%s" % self.pid.lower())):
+                        continue
                     src = os.path.join(d, f)
                     rel = os.path.relpath(src, root)
                     rep[os.path.join(REPO, rel)] = src
